@@ -471,6 +471,7 @@ func init() {
 			closedGuards(c)
 			channelClose(c)
 			waitCond(c)
+			cleanupLogic(c) // the cleaner repeats a pass while it reports a change, holding the lock Close needs: it must make progress
 			out := c.sel(func(o *an.Oblig) bool {
 				if isUndecided(o) || o.Rule == "ANCHOR" {
 					return true
